@@ -26,55 +26,21 @@ def internalSchema : List (String × List (String × String × String)) := [
   ,("SyncCollectionQuery", [("XMLName", "xml.Name", "DAV: sync-collection"), ("SyncToken", "string", "sync-token"), ("Limit", "*Limit", "limit,omitempty"), ("SyncLevel", "string", "sync-level"), ("Prop", "*Prop", "prop")])
 ]
 
-/-- status codes named per function (http.StatusXxx selectors and literal HTTPError codes) -/
-def internalStatusSites : List (String × List Nat) := [
-  ("internal.Client.DoMultiStatus", [207]),
-  ("internal.DecodeXMLRequest", [400, 400]),
-  ("internal.HTTPErrorFromError", [500]),
-  ("internal.Handler.ServeHTTP", [201, 204, 405]),
-  ("internal.Handler.handleCopyMove", [201, 204, 400, 400, 400, 400]),
-  ("internal.Handler.handleOptions", [204]),
-  ("internal.Handler.handlePropfind", [400, 400]),
-  ("internal.IsNotFound", [404]),
-  ("internal.NewErrorResponse", [500]),
-  ("internal.NewOKResponse", [200]),
-  ("internal.NewPropFindResponse", [200, 200, 200, 400, 404]),
-  ("internal.Prop.Decode", [404]),
-  ("internal.Response.DecodeProp", [404]),
-  ("internal.ServeError", [500]),
-  ("internal.ServeMultiStatus", [207]),
-  ("internal.Status.Err", [200]),
-  ("internal.parseDestination", [400, 400])]
+/-- status-code literals per source file, sorted -/
+def internalStatusByFile : List (String × List Nat) := [("client.go", [207]), ("elements.go", [200, 200, 404, 404, 500]), ("internal.go", [404, 500]), ("server.go", [200, 200, 200, 201, 201, 204, 204, 204, 207, 400, 400, 400, 400, 400, 400, 400, 400, 400, 400, 400, 404, 405, 500])]
 
-def internalPanicSites : List (String × Nat) := [("internal.Depth.String", 1), ("internal.RawXMLValue.MarshalXML", 1), ("internal.RawXMLValue.TokenReader", 1)]
+/-- explicit panic() calls per source file -/
+def internalPanicsByFile : List (String × Nat) := [("internal.go", 1), ("xml.go", 2)]
 
-/-- run-time-checked accesses per function: index and slice expressions, type assertions without comma-ok (sorted) -/
-def internalIndexSites : List (String × List String) := [
-  ("internal.Client.Options", ["classes[\"1\"]", "resp.Header[\"Allow\"]", "resp.Header[\"Dav\"]"]),
-  ("internal.Client.PropFindFlat", ["ms.Responses[0]"]),
-  ("internal.DiscoverContextURL", ["addrs[0]", "txtRecords[0]"]),
-  ("internal.ETag.UnmarshalText", ["b[0]"]),
-  ("internal.EncodeProp", ["l[i]"]),
-  ("internal.Handler.handlePropfind", ["b[:]"]),
-  ("internal.NewPropFindResponse", ["props[ResourceTypeName]", "seen[xmlName]", "seen[xmlName]"]),
-  ("internal.Prop.Get", ["p.Raw[i]"]),
-  ("internal.Response.EncodeProp", ["resp.PropStats[i]"]),
-  ("internal.Response.Path", ["resp.Hrefs[0]"]),
-  ("internal.Status.UnmarshalText", ["parts[1]", "parts[2]"]),
-  ("internal.parseCommaSeparatedSet", ["m[f]"]),
-  ("internal.rawXMLValueReader.Token", ["tr.val.children[tr.child]"]),
-  ("internal.valueXMLName", ["nameParts[0]", "nameParts[1]", "strings.Split(tag, \",\")[0]"]),
-  ("internal.xmlNamesToRaw", ["l[i]"])]
+/-- run-time-checked accesses per source file, as shapes (identifiers replaced by _), sorted -/
+def internalIndexShapesByFile : List (String × List String) := [
+  ("client.go", ["_._[\"Allow\"]", "_._[\"Dav\"]", "_._[0]", "_[\"1\"]", "_[0]", "_[0]", "_[_]"]),
+  ("elements.go", ["_._[0]", "_._[_]", "_._[_]", "_[0]", "_[1]", "_[2]", "_[_]", "_[_]"]),
+  ("server.go", ["_[:]", "_[_]", "_[_]", "_[_]"]),
+  ("xml.go", ["_._()[0]", "_._._[_._]", "_[0]", "_[1]"])]
 
-/-- assignments through a pointer receiver, per method (state kept across calls on a handler, client or reader value) -/
-def internalReceiverWrites : List (String × List String) := [
-  ("internal.ETag.UnmarshalText", ["*etag"]),
-  ("internal.Href.UnmarshalText", ["*h"]),
-  ("internal.RawXMLValue.UnmarshalXML", ["val.tok", "val.children", "val.out", "val.children", "val.children"]),
-  ("internal.Response.EncodeProp", ["resp.PropStats"]),
-  ("internal.Status.UnmarshalText", ["s.Code", "s.Text"]),
-  ("internal.Time.UnmarshalText", ["*t"]),
-  ("internal.rawXMLValueReader.Token", ["tr.end", "tr.start", "tr.childReader", "tr.childReader", "tr.end"])]
+/-- the receiver types whose methods assign through the receiver -/
+def internalReceiverWriteTypes : List String := ["ETag", "Href", "RawXMLValue", "Response", "Status", "Time", "rawXMLValueReader"]
 
 def internalGlobals : List String := ["CollectionName", "CurrentUserPrincipalName", "DisplayNameName", "GetContentLengthName", "GetContentTypeName", "GetETagName", "GetLastModifiedName", "ResourceTypeName"]
 
@@ -84,35 +50,18 @@ def webdavSchema : List (String × List (String × String × String)) := [
   ,("principalURL", [("XMLName", "xml.Name", "DAV: principal-URL"), ("Href", "internal.Href", "href")])
 ]
 
-/-- status codes named per function (http.StatusXxx selectors and literal HTTPError codes) -/
-def webdavStatusSites : List (String × List Nat) := [
-  ("webdav.Handler.ServeHTTP", [500]),
-  ("webdav.LocalFileSystem.Copy", [403, 412]),
-  ("webdav.LocalFileSystem.Create", [405]),
-  ("webdav.LocalFileSystem.Mkdir", [405]),
-  ("webdav.LocalFileSystem.Move", [403, 412]),
-  ("webdav.LocalFileSystem.localPath", [400, 400]),
-  ("webdav.ServePrincipal", [204, 405]),
-  ("webdav.backend.Copy", [412]),
-  ("webdav.backend.HeadGet", [405]),
-  ("webdav.backend.Mkcol", [409, 415]),
-  ("webdav.backend.Move", [412]),
-  ("webdav.backend.PropPatch", [403]),
-  ("webdav.backend.Put", [201, 204]),
-  ("webdav.checkConditionalMatches", [400, 400, 412, 412]),
-  ("webdav.errFromOS", [403, 404, 503]),
-  ("webdav.errFromOSDest", [409])]
+/-- status-code literals per source file, sorted -/
+def webdavStatusByFile : List (String × List Nat) := [("fs_local.go", [400, 400, 400, 400, 403, 403, 403, 404, 405, 405, 409, 412, 412, 412, 412, 503]), ("server.go", [201, 204, 204, 403, 405, 405, 409, 412, 412, 415, 500])]
 
-def webdavPanicSites : List (String × Nat) := []
+/-- explicit panic() calls per source file -/
+def webdavPanicsByFile : List (String × Nat) := []
 
-/-- run-time-checked accesses per function: index and slice expressions, type assertions without comma-ok (sorted) -/
-def webdavIndexSites : List (String × List String) := [
-  ("webdav.backend.PropFind", ["resps[i]"]),
-  ("webdav.backend.propFindFile", ["props[internal.GetContentLengthName]", "props[internal.GetContentTypeName]", "props[internal.GetETagName]", "props[internal.GetLastModifiedName]", "props[internal.ResourceTypeName]"]),
-  ("webdav.servePrincipalPropfind", ["props[homeSet.GetXMLName()]"])]
+/-- run-time-checked accesses per source file, as shapes (identifiers replaced by _), sorted -/
+def webdavIndexShapesByFile : List (String × List String) := [
+  ("server.go", ["_[_._()]", "_[_._]", "_[_._]", "_[_._]", "_[_._]", "_[_._]", "_[_]"])]
 
-/-- assignments through a pointer receiver, per method (state kept across calls on a handler, client or reader value) -/
-def webdavReceiverWrites : List (String × List String) := []
+/-- the receiver types whose methods assign through the receiver -/
+def webdavReceiverWriteTypes : List String := []
 
 def webdavGlobals : List String := ["fileInfoPropFind", "groupMembershipName", "principalAlternateURISetName", "principalName", "principalURLName"]
 
@@ -139,36 +88,20 @@ def caldavSchema : List (String × List (String × String × String)) := [
   ,("timeRange", [("XMLName", "xml.Name", "urn:ietf:params:xml:ns:caldav time-range"), ("Start", "dateWithUTCTime", "start,attr,omitempty"), ("End", "dateWithUTCTime", "end,attr,omitempty")])
 ]
 
-/-- status codes named per function (http.StatusXxx selectors and literal HTTPError codes) -/
-def caldavStatusSites : List (String × List Nat) := [
-  ("caldav.Handler.ServeHTTP", [308, 500, 500]),
-  ("caldav.Handler.handleMultiget", [400]),
-  ("caldav.Handler.handleQuery", [400, 400]),
-  ("caldav.Handler.handleReport", [400]),
-  ("caldav.NewPreconditionError", [409]),
-  ("caldav.backend.Copy", [501]),
-  ("caldav.backend.Mkcol", [400, 400, 403]),
-  ("caldav.backend.Move", [501]),
-  ("caldav.backend.Options", [404]),
-  ("caldav.backend.PropFind", [404]),
-  ("caldav.backend.PropPatch", [501]),
-  ("caldav.backend.Put", [201, 400, 400, 400]),
-  ("caldav.decodeComp", [400, 400, 400])]
+/-- status-code literals per source file, sorted -/
+def caldavStatusByFile : List (String × List Nat) := [("server.go", [201, 308, 400, 400, 400, 400, 400, 400, 400, 400, 400, 400, 400, 400, 403, 404, 404, 409, 500, 500, 501, 501, 501])]
 
-def caldavPanicSites : List (String × Nat) := [("caldav.Match", 1)]
+/-- explicit panic() calls per source file -/
+def caldavPanicsByFile : List (String × Nat) := [("match.go", 1)]
 
-/-- run-time-checked accesses per function: index and slice expressions, type assertions without comma-ok (sorted) -/
-def caldavIndexSites : List (String × List String) := [
-  ("caldav.Client.MultiGetCalendar", ["calendarMultiget.Hrefs[i]"]),
-  ("caldav.backend.propFindCalendar", ["props[calendarDescriptionName]", "props[internal.DisplayNameName]", "props[maxResourceSizeName]"]),
-  ("caldav.backend.propFindCalendarObject", ["props[internal.GetContentLengthName]", "props[internal.GetETagName]", "props[internal.GetLastModifiedName]"]),
-  ("caldav.matchParamFilter", ["values[0]"])]
+/-- run-time-checked accesses per source file, as shapes (identifiers replaced by _), sorted -/
+def caldavIndexShapesByFile : List (String × List String) := [
+  ("client.go", ["_._[_]"]),
+  ("match.go", ["_[0]"]),
+  ("server.go", ["_[_._]", "_[_._]", "_[_._]", "_[_._]", "_[_]", "_[_]"])]
 
-/-- assignments through a pointer receiver, per method (state kept across calls on a handler, client or reader value) -/
-def caldavReceiverWrites : List (String × List String) := [
-  ("caldav.dateWithUTCTime.UnmarshalText", ["*t"]),
-  ("caldav.negateCondition.UnmarshalText", ["*nc", "*nc"]),
-  ("caldav.reportReq.UnmarshalXML", ["r.Query", "r.Multiget"])]
+/-- the receiver types whose methods assign through the receiver -/
+def caldavReceiverWriteTypes : List String := ["dateWithUTCTime", "negateCondition", "reportReq"]
 
 def caldavGlobals : List String := ["CapabilityCalendar", "calendarDataName", "calendarDescriptionName", "calendarHomeSetName", "calendarMultigetName", "calendarName", "calendarQueryName", "maxResourceSizeName", "supportedCalendarComponentSetName", "supportedCalendarDataName"]
 
@@ -191,25 +124,53 @@ def carddavSchema : List (String × List (String × String × String)) := [
   ,("textMatch", [("XMLName", "xml.Name", "urn:ietf:params:xml:ns:carddav text-match"), ("Text", "string", ",chardata"), ("Collation", "string", "collation,attr,omitempty"), ("NegateCondition", "negateCondition", "negate-condition,attr,omitempty"), ("MatchType", "matchType", "match-type,attr,omitempty")])
 ]
 
-/-- status codes named per function (http.StatusXxx selectors and literal HTTPError codes) -/
-def carddavStatusSites : List (String × List Nat) := [
-  ("carddav.Client.SyncCollection", [404]),
-  ("carddav.Handler.ServeHTTP", [308, 500, 500]),
-  ("carddav.Handler.handleMultiget", [400]),
-  ("carddav.Handler.handleQuery", [400, 400]),
-  ("carddav.Handler.handleReport", [400]),
-  ("carddav.NewPreconditionError", [409]),
-  ("carddav.backend.Copy", [501]),
-  ("carddav.backend.Delete", [403]),
-  ("carddav.backend.Mkcol", [400, 400, 403]),
-  ("carddav.backend.Move", [501]),
-  ("carddav.backend.Options", [404]),
-  ("carddav.backend.PropFind", [404]),
-  ("carddav.backend.PropPatch", [405, 405, 501, 501]),
-  ("carddav.backend.Put", [201, 400, 400, 400]),
-  ("carddav.decodeAddressDataReq", [400])]
+/-- status-code literals per source file, sorted -/
+def carddavStatusByFile : List (String × List Nat) := [("client.go", [404]), ("server.go", [201, 308, 400, 400, 400, 400, 400, 400, 400, 400, 400, 400, 403, 403, 404, 404, 405, 405, 409, 500, 500, 501, 501, 501, 501])]
 
-def carddavPanicSites : List (String × Nat) := [("carddav.filterProperties", 1)]
+/-- explicit panic() calls per source file -/
+def carddavPanicsByFile : List (String × Nat) := [("match.go", 1)]
+
+/-- run-time-checked accesses per source file, as shapes (identifiers replaced by _), sorted -/
+def carddavIndexShapesByFile : List (String × List String) := [
+  ("client.go", ["_._[_]", "_[\"addressbook\"]", "_[_]"]),
+  ("match.go", ["_._[_._]", "_._[_._]", "_._[_]"]),
+  ("server.go", ["_[_._]", "_[_._]", "_[_._]", "_[_._]", "_[_]", "_[_]"])]
+
+/-- the receiver types whose methods assign through the receiver -/
+def carddavReceiverWriteTypes : List String := ["filterTest", "matchType", "negateCondition", "reportReq"]
+
+def carddavGlobals : List String := ["CapabilityAddressBook", "addressBookDescriptionName", "addressBookHomeSetName", "addressBookMultigetName", "addressBookName", "addressBookQueryName", "addressDataName", "maxResourceSizeName", "supportedAddressDataName"]
+
+/-- run-time-checked accesses per function: index and slice expressions, type assertions without comma-ok (sorted) -/
+def internalIndexSites : List (String × List String) := [
+  ("internal.Client.Options", ["classes[\"1\"]", "resp.Header[\"Allow\"]", "resp.Header[\"Dav\"]"]),
+  ("internal.Client.PropFindFlat", ["ms.Responses[0]"]),
+  ("internal.DiscoverContextURL", ["addrs[0]", "txtRecords[0]"]),
+  ("internal.ETag.UnmarshalText", ["b[0]"]),
+  ("internal.EncodeProp", ["l[i]"]),
+  ("internal.Handler.handlePropfind", ["b[:]"]),
+  ("internal.NewPropFindResponse", ["props[ResourceTypeName]", "seen[xmlName]", "seen[xmlName]"]),
+  ("internal.Prop.Get", ["p.Raw[i]"]),
+  ("internal.Response.EncodeProp", ["resp.PropStats[i]"]),
+  ("internal.Response.Path", ["resp.Hrefs[0]"]),
+  ("internal.Status.UnmarshalText", ["parts[1]", "parts[2]"]),
+  ("internal.parseCommaSeparatedSet", ["m[f]"]),
+  ("internal.rawXMLValueReader.Token", ["tr.val.children[tr.child]"]),
+  ("internal.valueXMLName", ["nameParts[0]", "nameParts[1]", "strings.Split(tag, \",\")[0]"]),
+  ("internal.xmlNamesToRaw", ["l[i]"])]
+
+/-- run-time-checked accesses per function: index and slice expressions, type assertions without comma-ok (sorted) -/
+def webdavIndexSites : List (String × List String) := [
+  ("webdav.backend.PropFind", ["resps[i]"]),
+  ("webdav.backend.propFindFile", ["props[internal.GetContentLengthName]", "props[internal.GetContentTypeName]", "props[internal.GetETagName]", "props[internal.GetLastModifiedName]", "props[internal.ResourceTypeName]"]),
+  ("webdav.servePrincipalPropfind", ["props[homeSet.GetXMLName()]"])]
+
+/-- run-time-checked accesses per function: index and slice expressions, type assertions without comma-ok (sorted) -/
+def caldavIndexSites : List (String × List String) := [
+  ("caldav.Client.MultiGetCalendar", ["calendarMultiget.Hrefs[i]"]),
+  ("caldav.backend.propFindCalendar", ["props[calendarDescriptionName]", "props[internal.DisplayNameName]", "props[maxResourceSizeName]"]),
+  ("caldav.backend.propFindCalendarObject", ["props[internal.GetContentLengthName]", "props[internal.GetETagName]", "props[internal.GetLastModifiedName]"]),
+  ("caldav.matchParamFilter", ["values[0]"])]
 
 /-- run-time-checked accesses per function: index and slice expressions, type assertions without comma-ok (sorted) -/
 def carddavIndexSites : List (String × List String) := [
@@ -219,14 +180,5 @@ def carddavIndexSites : List (String × List String) := [
   ("carddav.backend.propFindAddressObject", ["props[internal.GetContentLengthName]", "props[internal.GetETagName]", "props[internal.GetLastModifiedName]"]),
   ("carddav.decodeSupportedAddressData", ["l[i]"]),
   ("carddav.filterProperties", ["ao.Card[vcard.FieldVersion]", "result.Card[prop]", "result.Card[vcard.FieldVersion]"])]
-
-/-- assignments through a pointer receiver, per method (state kept across calls on a handler, client or reader value) -/
-def carddavReceiverWrites : List (String × List String) := [
-  ("carddav.filterTest.UnmarshalText", ["*ft"]),
-  ("carddav.matchType.UnmarshalText", ["*mt"]),
-  ("carddav.negateCondition.UnmarshalText", ["*nc", "*nc"]),
-  ("carddav.reportReq.UnmarshalXML", ["r.Query", "r.Multiget"])]
-
-def carddavGlobals : List String := ["CapabilityAddressBook", "addressBookDescriptionName", "addressBookHomeSetName", "addressBookMultigetName", "addressBookName", "addressBookQueryName", "addressDataName", "maxResourceSizeName", "supportedAddressDataName"]
 
 end GoWebdav.Expected.Pinned
